@@ -89,6 +89,7 @@ def refErr : Spec.MacroRef.RErr → String
 
 def refFlag : Spec.MacroRef.Flag → String
   | .nestUnspec => "nestUnspec" | .dirInArgs => "dirInArgs" | .crossInvocation => "crossInvocation"
+  | .dirAfterName => "dirAfterName" | .strOfInvocation => "strOfInvocation" | .emptyWithSpace => "emptyWithSpace"
 
 def showRef (bs : List UInt8) : String :=
   let r := Scan.tokensP bs
